@@ -54,3 +54,8 @@ claim('C06',
       note="Trusted: harness/refs/admix.py. Tolerance 1e-10 + 40*eps*(max w/min w)/min dx: conditioning of the interpolation fraction. A vector is inside the simplex when the exact rational sum of its float entries is <= 1. One shared grid (as the library's own models use).",
       technique="property-based differential testing (Hypothesis) against an explicit-loop deposition oracle plus conservation invariants",
       design_ref="DESIGN.md 3/C06")
+claim('C19',
+      text="get_hess / get_grad on generated quadratic and linear functions (parameters positive, negative, zero and tiny, so central and one-sided stencils are all hit) must be exact to a round-off bound; FIM/GIM uncertainties, LRT adjustment, Wald and score statistics on generated affine Poisson models must equal closed forms from analytic derivatives within O(eps^2) (condition-number aware) and be invariant to bootstrap order; sum_chi2_ppf scalar/array agreement against scipy cdfs; generated call histories over different model functions sharing (p0, ns, pts) must reproduce their empty-cache values.",
+      note="Trusted: the closed forms in checks/c19.py, scipy.stats.chi2. Information matrices with condition number above 300 are not judged. Log-scale cases keep log(p) > 0.4 so central stencils are used (one-sided stencils are only O(eps)). Models are affine (B0 + sum p_k B_k): a purely linear model is degenerate under multinom (scale confounded with theta).",
+      technique="property-based testing (Hypothesis): exactness on polynomials, closed-form differential oracle, history sequences vs empty-cache reruns",
+      design_ref="DESIGN.md 3/C19")
